@@ -53,6 +53,28 @@ def rich_scenarios(sd):
     return out
 
 
+_long_cache = {}
+
+
+def long_scenarios(sd, nsim=12):
+    """Long random walks of the Writer model (Writer.long.cfg: up to 12 files, 45-70 calls, prefix-related names, empty
+    pieces, add_file, StreamWriter): archives a campaign of short call sequences never builds."""
+    key = (sd, nsim)
+    if key in _long_cache:
+        return _long_cache[key]
+    r = tlc("MCWriter", "Writer.long.cfg", f"long{sd}", workers=1, simulate=nsim, depth=72, seed_arg=7000 + sd, timeout=1800, quiet=True)
+    out, seen = [], set()
+    for e in r.prints["EDGE"]:
+        if e["fx"] and e["lab"]["op"] == "finalize" and e["lab"]["res"] == "Ok":
+            k = canon(e["to"])
+            if k not in seen:
+                seen.add(k)
+                out.append(dict(labels=e["to"], stream=e["stream"], files=e["files"], hid=e["hid"], rich=True))
+    out.sort(key=lambda s: (-len(s["files"]), -len(s["labels"]), canon(s["labels"])))
+    _long_cache[key] = out
+    return out
+
+
 def pick(scens, n, sd, rich_share=4):
     """Deterministic diverse subset of the exhaustively exported scenarios (sorted by size, strided, rotated by the
     seed) plus a share of longer simulated behaviours (interleaved files spanning several chunks and blocks)."""
